@@ -238,6 +238,23 @@ def judge_one(wf, name, clock, state):
                             "predecessor_query": p_in,
                             "successor_query": s_in}))
                 break
+    # the plan is attached to the observation and consumed by the scheduler
+    # (which replaces plan.tasks by the unfinished ones): a plan generated
+    # for the same observation after that is again a full plan
+    if len(tasks) >= 2:
+        try:
+            obs.plan = plan
+            plan.tasks = list(plan.tasks)[1:]
+            again = planner.run(obs, buffer, 1)
+            if again is None or len(list(again.tasks)) != len(node_ids) or \
+                    {t.graph_id for t in again.tasks} != set(node_ids):
+                vs.append(("C14.one-task-per-node",
+                           "replanned-running-observation:task-set-differs",
+                           {"nodes": node_ids, "tasks": None if again is None
+                            else [t.id for t in again.tasks]}))
+        except Exception as e:
+            vs.append(("C14.plan-generated", "replanning-raised:%s"
+                       % type(e).__name__, {"error": repr(e)}))
     # dedupe by (clause, cause)
     seen, out = set(), []
     for v in vs:
